@@ -588,6 +588,7 @@ class loader( reader ):
         self._n			= 0			#   and line we're currently parsing
         self._ts		= None			# Last received timestamp; if None, open will use advancing historical time
         self._strict		= False			#   True after opening a new file, goes False when _ts increases
+        self._opened		= False			#   True after opening a new file, 'til its first record is seen
         self.values		= {}			# Historical values at historical timestamp
         if values:
             # Some default values are provided; initialize our values to them, with a 0.0 timestamp
@@ -711,6 +712,7 @@ class loader( reader ):
                     self._i	= self.open( target=self._ts, after=after, lookahead=self.lookahead,
                                              strict=self._strict, encoding=encoding )
                     self._strict= True # remains until we see increasing timestamps
+                    self._opened= True # remains until we see the first record of the file
 
                 assert self.state in (self.INITIAL, self.SWITCHING, self.STREAMING, self.EXHAUSTED, self.AWAITING)
                 # We have an open generator; process records.  We also still know if it was our
@@ -763,6 +765,7 @@ class loader( reader ):
                         break
 
                     # We got a non-None <ts>,<js>; if we aren't exhausted, we're now streaming!
+                    ordered		= self._ts is None or ts >= self._ts
                     if self._strict:
                         # But first, carefully release self._strict.  If we opened a file, we'll set
                         # _strict.  The last file's final timestamp will be in self._ts; say it's
@@ -773,10 +776,15 @@ class loader( reader ):
                         # same file next time!  Therefore, we have to see ts > self._ts and
                         # self.state isn't INITIAL/SWITCHING (eg. we've already seen records from
                         # the file )
-                        if self.state not in (self.INITIAL, self.SWITCHING) and (
+                        if not self._opened and (
                                 self._ts is None or ts > self._ts ):
                             log.debug( "%s Playback releasing strict for next open: %s > %s", self, ts, self._ts )
                             self._strict	= False
+                    self._opened	= False
+                    if ordered:
+                        # Remember the last timestamp received, whether or not its payload turns out
+                        # to be usable: the next history file is found relative to it.
+                        self._ts	= ts
 
                     if self.state in (self.INITIAL, self.SWITCHING, self.AWAITING):
                         self.state	= self.STREAMING
@@ -814,8 +822,7 @@ class loader( reader ):
                     if data:
                         # A new value; if <ts> is monotonic and increasing, append <ts>,<regs> to
                         # future and generate an event with <ts>,<data>; otherwise, log/ignore it.
-                        if self._ts is None or ts >= self._ts:
-                            self._ts	= ts
+                        if ordered:
                             events.append( {
                                 'timestamp':	ts,
                                 'command':	'register',
